@@ -11,8 +11,13 @@ import time
 
 prop, letter = sys.argv[1], sys.argv[2]
 also = sys.argv[3:]
+newletter = letter
+if "--as" in also:
+    i = also.index("--as")
+    newletter = also[i + 1]
+    also = also[:i] + also[i + 2:]
 src = f"/tmp/mut-{prop}/out"
-sid = f"{prop}-{letter}"
+sid = f"{prop}-{newletter}"
 dst = f"/verif/seeded/{sid}"
 os.makedirs(dst, exist_ok=True)
 if os.path.exists(f"{src}/{letter}.diff"):
@@ -32,6 +37,16 @@ val = f"/var/tmp/ws-val-{sid}"
 sh(f"git -C /repo worktree remove --force {val}")
 rc, out = sh(f"git -C /repo worktree add -q {val} HEAD")
 meta = {"id": sid, "property": prop, "ran": []}
+if os.path.exists(f"{dst}/meta.json"):
+    try:
+        _old = json.load(open(f"{dst}/meta.json"))
+        for k in ("change", "needs_to_manifest", "what_was_run", "history"):
+            if k in _old:
+                meta[k] = _old[k]
+        # keep a short history of earlier runs of the checks against this change
+        meta.setdefault("history", []).append({"caught_by": _old.get("caught_by"), "replay_kinds": _old.get("replay_kinds")})
+    except Exception:
+        pass
 try:
     rc, out = sh(f"PYTHONPATH={val} /venv/bin/python {dst}/demo.py", cwd=val, timeout=300)
     meta["demo_without_change"] = {"rc": rc, "tail": out[-300:]}
@@ -57,6 +72,7 @@ if meta["confirmed"]:
             meta["ran"].append({"cmd": f"./check {p} quick", "rc": rc, "output": [l[:300] for l in lines], "wall_s": round(time.time() - t0, 1)})
     finally:
         sh("git -C /repo checkout -- .")
+        sh("git -C /verif checkout -- evidence")     # evidence written while a seeded change was applied is not evidence
     meta["caught_by"] = [r["cmd"].split()[1] for r in meta["ran"] if r["rc"] == 1]
     meta["replay_kinds"] = ["no-failing-input-found" if any("no-failing-input-found" in l for l in r["output"]) and
                             not any(l.startswith("VIOLATION") and "no-failing-input-found" not in l for l in r["output"]) else "replay"
